@@ -696,12 +696,12 @@ theorem finish_valid (S : Schema) (hdet : Det S) (hts : TextStable S) (hleaf : L
     (hc : Coh S (fun n => contentOk S n = true) st.nodes) (hf : flags st = (false, false))
     (h : st.finish S = .ok (some doc, rest)) : contentOk S doc = true := by
   have hfo := finishOk_contentOk S hdet hts hleaf
-  obtain ⟨nodes, o, nb, io, to⟩ := st
+  obtain ⟨nodes, o, nb, io, to, fr⟩ := st
   simp only [flags, Prod.mk.injEq] at hf
   obtain ⟨rfl, rfl⟩ := hf
   unfold PState.finish at h
   simp only at h hc
-  cases hce : ({ nodes := nodes, open_ := 0, needsBlock := nb, isOpen := false, topOpen := false } : PState).closeExtra S false with
+  cases hce : ({ nodes := nodes, open_ := 0, needsBlock := nb, isOpen := false, topOpen := false, fresh := fr } : PState).closeExtra S false with
   | error e => simp [hce] at h
   | ok st1 =>
     simp only [hce] at h
